@@ -1,8 +1,9 @@
 (* Props/C04.v — property C04: ignore files mean what git says they mean.
    Only statements; every proof is one `exact` (or a vm_compute witness).  Check lines pin the statements. *)
 From RG Require Import Base.Bytes Model.Glob Model.GlobSet Spec.GlobSem Spec.GlobSetSem Model.Gitignore Spec.GitSem
-  Spec.GitGrammar Spec.GitLineClass
-  Proofs.GlobPathProofs Proofs.GitignoreProofs Proofs.GitSemProofs Proofs.GitSegProofs Proofs.GitLineProofs.
+  Spec.GitGrammar Spec.GitLineClass Spec.GlobSyntax Spec.GitLineSyntax
+  Proofs.GlobPathProofs Proofs.GitignoreProofs Proofs.GitSemProofs Proofs.GitSegProofs Proofs.GitLineProofs
+  Proofs.GitLineRgProofs Proofs.GitLineGitProofs Proofs.GitGrammarClassProofs Proofs.GitTreeGrammarProofs.
 
 (* 1. within one ignore file the LAST line whose glob matches the entry (and whose directory-only flag admits
       it) decides, `!` lines re-include: Gitignore::matched_stripped (glob set, seven strategies, reverse scan)
@@ -67,9 +68,9 @@ Print Assumptions gitignore_pattern_eq_git.
        the well-formed segment form of git's reading and the negation / directory-only flags agree) and every
        entry: what ripgrep's rewritten glob (read through tmatch) says about the entry = what GitSem says
        (Some true = excluded, Some false = re-included by `!`, None = the line does not apply; trailing-slash
-       lines apply to directories only).  That every line of the documented grammar IS in the class is checked
-       by running the predicate on every generated line (tested, see notes/C04.md: missing lemma
-       grammar_lines_in_class), and on the examples below. *)
+       lines apply to directories only).  That every line of the documented grammar IS in the class is
+       proved for the documented grammar in 5e below (grammar_lines_in_class), and additionally tested by
+       running the predicate on every generated line, and on the examples below. *)
 Theorem gitignore_line_eq_git :
   forall (ci : bool) (line : bytes) (rel : list bytes) (is_dir : bool),
     line_class ci line = true -> rel <> [] -> Forall comp_ok rel ->
@@ -92,27 +93,80 @@ Print Assumptions gitignore_file_eq_git.
        with last-match-wins, directory-only, "a deeper ignore file overrides a shallower one" (nearest first)
        and "nothing beneath an ignored directory is visited".  Hence for every finite tree (list of entries)
        the listing of the walker model is git's listing.
-       PARTIAL with respect to the target "every line of the documented grammar": the hypothesis is membership
-       of every line in the executable class line_class.  Missing lemma (stated, not proved; tested on every
-       generated line, see coverage line_class in evidence/C04.json):
-         grammar_lines_in_class : forall ci gl, gline_ok gl = true -> line_class ci (render_line gl) = true
-       i.e. both line readers on the text of a grammar line produce the segment form.  Its glob-parser half is
-       proved (Props/C12.v parse_documented_syntax); the add_line wrapper (blank trimming, `!`, `/`, trailing
-       `/`, `**/` and `/*` rewriting) and git's reader on rendered text are not. *)
-Theorem rg_model_visited_eq_git_visited_partial :
+       This version is over the executable class (which is larger than the proved grammar: it also contains the
+       "\!x" / "\#x" forms, escaped backslashes and every other line the two readers agree on token by token);
+       theorem 5g below is the same statement over the documented grammar. *)
+Theorem rg_model_visited_eq_git_visited_on_class :
   forall (ci : bool) (igs : list (list bytes * list bytes)) (path : list bytes) (is_dir : bool),
     igs_in_class ci igs -> Forall comp_ok path ->
     visited re_spec (parse_igs ci igs) path is_dir = git_visited ci igs path is_dir.
 Proof. exact tree_rg_eq_git_proof. Qed.
-Print Assumptions rg_model_visited_eq_git_visited_partial.
+Print Assumptions rg_model_visited_eq_git_visited_on_class.
 
-Theorem rg_model_listing_eq_git_listing_partial :
+Theorem rg_model_listing_eq_git_listing_on_class :
   forall (ci : bool) (igs : list (list bytes * list bytes)) (entries : list (list bytes * bool)),
     igs_in_class ci igs -> Forall (fun e => Forall comp_ok (fst e)) entries ->
     filter (fun e => visited re_spec (parse_igs ci igs) (fst e) (snd e)) entries =
     filter (fun e => git_visited ci igs (fst e) (snd e)) entries.
 Proof. exact tree_listing_eq_git_proof. Qed.
-Print Assumptions rg_model_listing_eq_git_listing_partial.
+Print Assumptions rg_model_listing_eq_git_listing_on_class.
+
+(* 5e. THE GRAMMAR IS IN THE CLASS.  A grammar line (Spec/GitLineSyntax.v) is
+         ["!"] ["/"] piece ("/" piece)* ["/"] blank*     piece ::= "**" | item+     item ::= plain | "\"c | "?" | "*" | "[" member+ "]"
+       with (gline_ok): plain characters anything but space ! # * , / ? [ \ { } ; escaped characters anything but
+       '/' and '\' ; class members characters other than space ! - / [ \ ] ^ and ranges lo <= hi, the class not
+       admitting '/' ; "**" never twice in a row, no two "*" in a row inside a component ; the first item of the
+       pattern not an escaped '!' or '#'.  For every such line, both readers — ripgrep's add_line (comment test,
+       git-style blank trimming, "!", leading "/", trailing "/", the implicit "**/" prefix, "/**" => "/**/*", the
+       glob parser) and git's reader (quoting, blank trimming, negation, directory-only, anchoring, splitting at
+       "/", component parsing) — produce the segment form, i.e. the line is in line_class.  Productions NOT covered
+       and therefore still under the executable class hypothesis: negated classes and classes admitting '/'
+       (ClassMatchesSeparator), braces (UnescapedBrace), "\\", "\/", "\!x" and "\#x" at the start, tabs. *)
+Theorem grammar_lines_in_class :
+  forall (ci : bool) (gl : gline), gline_ok gl = true -> line_class ci (render_line gl) = true.
+Proof. exact grammar_lines_in_class_proof. Qed.
+Print Assumptions grammar_lines_in_class.
+
+(* 5f. line and file level over the grammar (pattern lines, comments, blank lines) *)
+Theorem grammar_line_eq_git :
+  forall (ci : bool) (line : bytes) (rel : list bytes) (is_dir : bool),
+    grammar_line line -> rel <> [] -> Forall comp_ok rel ->
+    rg_line re_spec ci line rel is_dir = git_line ci line rel is_dir.
+Proof. exact grammar_line_eq_git_proof. Qed.
+Print Assumptions grammar_line_eq_git.
+
+Theorem grammar_file_eq_git :
+  forall (ci : bool) (lines : list bytes) (rel : list bytes) (is_dir : bool),
+    grammar_lines lines -> rel <> [] -> Forall comp_ok rel ->
+    verdict_opt (matched_stripped re_spec (add_lines ci lines) (join rel) is_dir) = file_verdict ci lines rel is_dir.
+Proof. exact grammar_file_eq_git_proof. Qed.
+Print Assumptions grammar_file_eq_git.
+
+(* 5g. TREE LEVEL OVER THE GRAMMAR: any ignore files at any levels, every line a line of the documented grammar
+       (grammar_line: a rendered gline_ok line, a comment, or a blank line), any entry path of separator-free
+       components, both case modes: the walker model visits the entry iff git leaves it unignored; hence the
+       listing of every finite tree is git's listing. *)
+Theorem rg_model_visited_eq_git_visited :
+  forall (ci : bool) (igs : list (list bytes * list bytes)) (path : list bytes) (is_dir : bool),
+    grammar_igs igs -> Forall comp_ok path ->
+    visited re_spec (parse_igs ci igs) path is_dir = git_visited ci igs path is_dir.
+Proof. exact grammar_tree_eq_git_proof. Qed.
+Print Assumptions rg_model_visited_eq_git_visited.
+
+Theorem rg_model_listing_eq_git_listing :
+  forall (ci : bool) (igs : list (list bytes * list bytes)) (entries : list (list bytes * bool)),
+    grammar_igs igs -> Forall (fun e => Forall comp_ok (fst e)) entries ->
+    filter (fun e => visited re_spec (parse_igs ci igs) (fst e) (snd e)) entries =
+    filter (fun e => git_visited ci igs (fst e) (snd e)) entries.
+Proof. exact grammar_listing_eq_git_proof. Qed.
+Print Assumptions rg_model_listing_eq_git_listing.
+
+(* non-vacuity: "!/v/k*/[a-c]x/**/" + 2 blanks is a grammar line; its text; and the vendor idiom as a tree *)
+Example ex_grammar_line :
+  let gl := mk_gline true true [PComp [IPlain 118]; PComp [IPlain 107; IStar]; PComp [IClass [(97, 99)]%N; IPlain 120]; PDStar] true 2 in
+  gline_ok gl = true /\
+  render_line gl = [33; 47; 118; 47; 107; 42; 47; 91; 97; 45; 99; 93; 120; 47; 42; 42; 47; 32; 32]%N.
+Proof. vm_compute. auto. Qed.
 
 (* every construct of the documented grammar on a representative line is in the class (both case modes), and the
    excluded shapes are not: class admitting '/', braces, "//", unclosed class *)
@@ -185,7 +239,18 @@ Check gitignore_line_eq_git :
   forall (ci : bool) (line : bytes) (rel : list bytes) (is_dir : bool),
     line_class ci line = true -> rel <> [] -> Forall comp_ok rel ->
     rg_line re_spec ci line rel is_dir = git_line ci line rel is_dir.
-Check rg_model_visited_eq_git_visited_partial :
+Check rg_model_visited_eq_git_visited_on_class :
   forall (ci : bool) (igs : list (list bytes * list bytes)) (path : list bytes) (is_dir : bool),
     igs_in_class ci igs -> Forall comp_ok path ->
     visited re_spec (parse_igs ci igs) path is_dir = git_visited ci igs path is_dir.
+Check grammar_lines_in_class :
+  forall (ci : bool) (gl : gline), gline_ok gl = true -> line_class ci (render_line gl) = true.
+Check rg_model_visited_eq_git_visited :
+  forall (ci : bool) (igs : list (list bytes * list bytes)) (path : list bytes) (is_dir : bool),
+    grammar_igs igs -> Forall comp_ok path ->
+    visited re_spec (parse_igs ci igs) path is_dir = git_visited ci igs path is_dir.
+Check rg_model_listing_eq_git_listing :
+  forall (ci : bool) (igs : list (list bytes * list bytes)) (entries : list (list bytes * bool)),
+    grammar_igs igs -> Forall (fun e => Forall comp_ok (fst e)) entries ->
+    filter (fun e => visited re_spec (parse_igs ci igs) (fst e) (snd e)) entries =
+    filter (fun e => git_visited ci igs (fst e) (snd e)) entries.
